@@ -5,7 +5,7 @@
 From Coq Require Import ZArith Bool List String Lia.
 From Verif Require Import Base.Word256 Base.PyInt C14.RangeBase C14.GenRange C14.RangeSound C14.RangeLemmas2.
 From Verif Require Import C14.RangeEq C14.RangeLt C14.RangeGt C14.RangeSlt C14.RangeSgt C14.RangeDiv
-  C14.RangeSdiv C14.RangeSmod C14.RangeBits C14.RangeByte C14.RangeSignext.
+  C14.RangeSdiv C14.RangeSmod C14.RangeBits C14.RangeByte C14.RangeSignext C14.RangeOp.
 Open Scope Z_scope.
 
 Theorem range_evaluators_sound :
@@ -47,6 +47,17 @@ Proof.
   - exact eval_smod_sound_mem.
 Qed.
 Print Assumptions range_evaluators_sound.
+
+(* the dispatcher used by the analysis: for every opcode it handles, on well-formed ranges and word
+   operands, the result denotes the EVM result word (and is well-formed, smod excepted) *)
+Theorem range_eval_op_sound : forall op w A B a b, word_op op = Some w ->
+  wf A -> wf B -> 0 <= a < W -> 0 <= b < W -> mem a A -> mem b B ->
+  match eval_op op A B with
+  | Ok R => mem (w a b) R /\ (op <> "smod"%string -> wf R)
+  | Err _ => False
+  end.
+Proof. exact eval_op_sound. Qed.
+Print Assumptions range_eval_op_sound.
 
 (* the one statement that does not hold at full strength for the current code *)
 Theorem range_smod_result_wf_refuted :
